@@ -152,7 +152,28 @@ func (b *builder) att(f *tfield) *expr.AttributeExpr {
 	if f.Pat != "" {
 		a.Validation = &expr.ValidationExpr{Pattern: f.Pat}
 	}
+	if req := requiredOf(f.T); len(req) > 0 {
+		if a.Validation == nil {
+			a.Validation = &expr.ValidationExpr{}
+		}
+		a.Validation.Required = req
+	}
 	return a
+}
+
+// requiredOf lists, in name order (so that declaration order plays no part), the required attributes of an object.
+func requiredOf(d *tdesc) []string {
+	if d == nil || d.Kind != "object" {
+		return nil
+	}
+	var req []string
+	for _, f := range d.Fields {
+		if f.Req {
+			req = append(req, f.Name)
+		}
+	}
+	sort.Strings(req)
+	return req
 }
 
 func (b *builder) dt(d *tdesc) expr.DataType {
@@ -176,7 +197,6 @@ func (b *builder) dt(d *tdesc) expr.DataType {
 		return &expr.Map{KeyType: &expr.AttributeExpr{Type: b.dt(d.Key)}, ElemType: &expr.AttributeExpr{Type: b.dt(d.Elem)}}
 	case "object":
 		o := &expr.Object{}
-		var req []string
 		for _, i := range b.order(len(d.Fields)) {
 			f := d.Fields[i]
 			a := b.att(f)
@@ -188,9 +208,6 @@ func (b *builder) dt(d *tdesc) expr.DataType {
 			}
 			b.fields++
 			o.Set(f.Name, a)
-			if f.Req {
-				req = append(req, f.Name)
-			}
 		}
 		return o
 	case "union":
@@ -223,6 +240,9 @@ func (b *builder) user(i int) expr.UserType {
 	b.uts[i] = ut // registered before the body is built: cycles close on it
 	body := b.dt(b.g.users[i])
 	at := &expr.AttributeExpr{Type: body, Meta: expr.MetaExpr{}}
+	if req := requiredOf(b.g.users[i]); len(req) > 0 {
+		at.Validation = &expr.ValidationExpr{Required: req}
+	}
 	for _, kv := range [][2]string{{"struct:field:name", "N" + b.g.names[i]}, {"struct:field:type", "T"}, {"struct:field:external", "E"}, {"type:generate:force", "x"}}[:1+i%4] {
 		at.Meta[kv[0]] = []string{kv[1]}
 	}
@@ -434,6 +454,22 @@ func runC13(t *verifsim.Tape, cfg engine.Config) *engine.Outcome {
 	}
 	fmt.Fprintf(h, "%s|", ref)
 	// ---- 2. copies: equal, then independent under a history of mutations ---------------
+	// (what goa itself does to types before copying them: required names removed in place when an attribute is
+	// mapped to a header or a path parameter - the list keeps its capacity)
+	emptied := map[*expr.AttributeExpr]bool{}
+	if t.Draw("pre-empty-required", 3) == 0 {
+		var pa []*expr.AttributeExpr
+		c13sites(orig, map[expr.UserType]bool{}, &pa, new([]*expr.Object), new([]expr.UserType), new([]*expr.Union))
+		for _, a := range pa {
+			if a.Validation != nil && len(a.Validation.Required) > 0 {
+				for _, n := range append([]string{}, a.Validation.Required...) {
+					a.Validation.RemoveRequired(n)
+				}
+				emptied[a] = true
+				o.Features["required_emptied_in_place"]++
+			}
+		}
+	}
 	before := snapshot(orig)
 	beforeHash := allHashes(orig)
 	cp := expr.Dup(orig)
@@ -462,9 +498,24 @@ func runC13(t *verifsim.Tape, cfg engine.Config) *engine.Outcome {
 	}
 	nOps := 1 + t.Draw("nmut", 6)
 	var ops []string
+	// two-sided histories: an operation is applied to the copy or (one time in four) to the original, and
+	// whichever side was NOT touched must read exactly as before; `before` follows the original's own changes
 	for k := 0; k < nOps && len(ca) > 0; k++ {
-		a := ca[t.Draw("mut-site", len(ca))]
-		switch t.Draw("mut-op", 7) {
+		onOriginal := false // (the original is mutated too, but only at the very end of the run: see "two-sided" below)
+		sa, so, su, sun := ca, co, cu, cun
+		if onOriginal {
+			sa, so, su, sun = oa, oo, ou, un
+		}
+		otherBefore := snapshot(cp)
+		a := sa[t.Draw("mut-site", len(sa))]
+		co, cu, cun := so, su, sun
+		switch t.Draw("mut-op", 8) {
+		case 7:
+			if a.Validation == nil {
+				a.Validation = &expr.ValidationExpr{}
+			}
+			a.Validation.AddRequired(fmt.Sprintf("added_%d", k))
+			ops = append(ops, "add-required")
 		case 0:
 			a.Type = expr.Boolean
 			ops = append(ops, "set-type")
@@ -508,6 +559,19 @@ func runC13(t *verifsim.Tape, cfg engine.Config) *engine.Outcome {
 			ops = append(ops, "append-meta-value")
 		}
 		o.Features["mutations"]++
+		if len(ops) == 0 {
+			continue
+		}
+		if onOriginal {
+			ops[len(ops)-1] += "@original"
+			o.Features["mutations_on_original"]++
+			before, beforeHash = snapshot(orig), allHashes(orig)
+			if now := snapshot(cp); now != otherBefore {
+				o.Violate("copy_not_independent", "original_changes_copy:"+strings.TrimSuffix(ops[len(ops)-1], "@original"), "after %v (the last one on the ORIGINAL) the COPY changed:\n  before %s\n  after  %s", ops, clipStr(otherBefore, 500), clipStr(now, 500))
+				break
+			}
+			continue
+		}
 		if now := snapshot(orig); now != before {
 			o.Violate("copy_not_independent", "copy_not_independent:"+ops[len(ops)-1], "after %v on the COPY the ORIGINAL changed:\n  before %s\n  after  %s", ops, clipStr(before, 500), clipStr(now, 500))
 			break
@@ -617,6 +681,49 @@ func runC13(t *verifsim.Tape, cfg engine.Config) *engine.Outcome {
 	o.Distinct = hex.EncodeToString(h.Sum(nil))[:16]
 	o.Digest = o.Distinct + fmt.Sprint(len(ops))
 	o.Features["_evaluations"] = len(modes) + nOps + len(hashFlags) + 2
+	// ---- 4. two-sided history, last because it changes the original: a fresh copy, then AddRequired / Meta appends
+	// applied alternately to the original and to the copy; the side that was not touched must read as before
+	{
+		cp2 := expr.Dup(orig)
+		var a1, a2 []*expr.AttributeExpr
+		c13sites(orig, map[expr.UserType]bool{}, &a1, new([]*expr.Object), new([]expr.UserType), new([]*expr.Union))
+		c13sites(cp2, map[expr.UserType]bool{}, &a2, new([]*expr.Object), new([]expr.UserType), new([]*expr.Union))
+		if len(a1) == len(a2) && len(a1) > 0 {
+			var pref []int
+			for i, a := range a1 {
+				if emptied[a] {
+					pref = append(pref, i)
+				}
+			}
+			i := 0
+			for k := 0; k < 2+t.Draw("two-sided-n", 4); k++ {
+				if k%2 == 0 { // both sides of a pair of steps work on the same attribute
+					i = t.Draw("two-sided-site", len(a1))
+					if len(pref) > 0 && t.Draw("two-sided-emptied", 4) != 0 {
+						i = pref[t.Draw("two-sided-pref", len(pref))]
+					}
+				}
+				side, other, who := a1[i], cp2, "original"
+				if k%2 == 0 {
+					side, other, who = a2[i], orig, "copy"
+				}
+				was := snapshot(other)
+				if side.Validation == nil {
+					side.Validation = &expr.ValidationExpr{}
+				}
+				side.Validation.AddRequired(fmt.Sprintf("added_%d_on_%s", k, who))
+				for mk2 := range side.Meta {
+					side.Meta[mk2] = append(side.Meta[mk2], fmt.Sprintf("v%d_%s", k, who))
+					break
+				}
+				o.Features["two_sided_mutations"]++
+				if now := snapshot(other); now != was {
+					o.Violate("copy_not_independent", "two_sided:"+who, "step %d: AddRequired/append-meta on the %s changed the other side:\n  before %s\n  after  %s", k, who, clipStr(was, 500), clipStr(now, 500))
+					break
+				}
+			}
+		}
+	}
 	o.Sample = map[string]any{"type": clipStr(before, 700), "mutations_on_copy": ops, "map_orders": len(modes)}
 	return o
 }
